@@ -2333,3 +2333,155 @@ pub fn run_model(seed: u64, n: u64, thorough: bool, corpus: &[String], dir: &str
     }
     out.finish(dir);
 }
+
+// ------------------------------------------------------------------------------------------
+// saslc: the SCRAM client against the Coq model Auth/ScramClient.v
+// ------------------------------------------------------------------------------------------
+
+/// the abstract server messages of one stage of a `sasl-c` case (model alphabet of Auth/ScramClient.v)
+fn client_stage_events(cfg: &CCfg, stage: &str) -> Option<Vec<String>> {
+    let t = cfg.t.as_str();
+    // the client reads the iteration count as a decimal u32
+    let i_ok = cfg.i.parse::<u32>().is_ok();
+    let chal_tampered = matches!(
+        t,
+        "nonce-replace" | "nonce-trunc" | "nonce-empty" | "nonce-flip" | "nonce-prepend" | "nonce-shift" | "no-salt" | "salt-badb64" | "no-iter" | "mext" | "chal-nonutf8" | "chal-empty"
+    );
+    let good_chal = i_ok && !chal_tampered;
+    // the server's signature is right unless the tampering spoils it, or the harness cannot compute it
+    let data = match t {
+        "sig-flip" | "sig-trunc" | "sig-empty" | "sig-nonb64" | "no-v" | "e-attr" | "data-empty" | "wrong-salt" | "wrong-pw" | "sig-other-nonce" => "bad",
+        "no-data" | "code1n" | "code2n" | "code3n" | "code4n" => "none",
+        _ if own_iters(&cfg.i).is_none() => "bad",
+        _ => "good",
+    };
+    let code = match t.strip_prefix("code").map(|c| c.trim_end_matches('n')) {
+        Some("1") => "auth",
+        Some("2") => "sys",
+        Some("3") => "sysperm",
+        Some("4") => "systemp",
+        Some(_) => "other",
+        None => "ok",
+    };
+    Some(match stage {
+        "hdr" => vec![if t == "hdr-amqp" { "hx".into() } else { "hs".into() }],
+        "mechs" => vec![match t {
+            "mech-missing" => "m0".to_string(),
+            "outcome-first" => "o:ok:bad".to_string(),
+            _ => "m1".to_string(),
+        }],
+        "eof" => vec!["eof".into()],
+        "chal" => vec![if t == "early-outcome" { "o:ok:bad".to_string() } else { format!("c{}", good_chal as u8) }],
+        "chal2" => vec!["c1".into()],
+        "outcome" => match t {
+            "amqp-hdr-before-outcome" | "eof-before-outcome" => vec!["eof".into()],
+            "garbage-outcome" => vec!["g".into()],
+            "chal-after-outcome-fail" => vec!["o:auth:none".into(), "o:ok:good".into()],
+            "extra-chal" => vec!["o:ok:good".into()],
+            _ => vec![format!("o:{}:{}", code, data)],
+        },
+        "amqp" => vec!["amqp".into()],
+        _ => return None,
+    })
+}
+
+/// `saslc` case (the server's messages stage by stage) and the client's abstract behaviour stage by stage
+pub fn abstract_client(line: &str, trace: &str) -> Option<(String, String)> {
+    let cfg = parse_ccfg(line)?;
+    if trace.starts_with("TIMEOUT") || trace.contains("PANIC") || trace.contains("PENDING") {
+        return None;
+    }
+    let mut stages: Vec<String> = Vec::new();
+    let mut obs: Vec<String> = Vec::new();
+    for st in trace.split(" ; ") {
+        let (name, rest) = st.split_once(':')?;
+        let name = name.trim();
+        if name == "start" {
+            continue;
+        }
+        let mut toks: Vec<String> = Vec::new();
+        let mut parts = rest.split_whitespace();
+        let wire = parts.next().unwrap_or("-");
+        for w in split_top(wire) {
+            toks.push(match w.as_str() {
+                "-" | "" => continue,
+                "H" => "H".to_string(),
+                "O" => "O".to_string(),
+                x if x.starts_with("Init(") && x.contains(":gs2=ok:n=ok:") => "I".to_string(),
+                "Resp(c=ok:r=ok:p=ok)" => "R".to_string(),
+                other => format!("?{}", other),
+            });
+        }
+        for p in parts {
+            if let Some(r) = p.strip_prefix("open=") {
+                toks.push(match r {
+                    "ok" => "ok".to_string(),
+                    "err:ProtocolHeaderMismatch" => "err(hdr)".to_string(),
+                    "err:NotImplemented" => "err(notimpl)".to_string(),
+                    "err:ScramError" => "err(scram)".to_string(),
+                    "err:SaslError(Auth)" => "err(sasl:auth)".to_string(),
+                    "err:SaslError(Sys)" => "err(sasl:sys)".to_string(),
+                    "err:SaslError(SysPerm)" => "err(sasl:sysperm)".to_string(),
+                    "err:SaslError(SysTemp)" => "err(sasl:systemp)".to_string(),
+                    "err:DecodeError" => "err(decode)".to_string(),
+                    "err:Io" => "err(io)".to_string(),
+                    other => format!("?{}", other),
+                });
+            }
+        }
+        if name == "#" {
+            // what happens after the script: nothing of the negotiation is left, unless open() only returns here
+            if !toks.is_empty() {
+                stages.push(String::new());
+                obs.push(toks.join(","));
+            }
+            continue;
+        }
+        let evs = client_stage_events(&cfg, name)?;
+        stages.push(evs.join(" "));
+        obs.push(toks.join(","));
+    }
+    Some((format!("saslc | {}", stages.join(" ; ")), obs.join(" ; ")))
+}
+
+pub fn run_model_c(seed: u64, n: u64, thorough: bool, corpus: &[String], dir: &str) {
+    crate::codec::quiet_panics();
+    let mut out = Outputs::new(dir);
+    let mut r = Rng::new(seed);
+    let mut lines: Vec<String> = Vec::new();
+    for l in corpus {
+        if l.starts_with("sasl-c ") {
+            lines.push(l.clone());
+        }
+    }
+    lines.extend(systematic(thorough).into_iter().filter(|l| l.starts_with("sasl-c ") && !l.contains("i=4294967295 ")));
+    for _ in 0..n {
+        lines.push(gen_client(&mut r, thorough));
+    }
+    let mut seen = std::collections::HashSet::new();
+    for l in lines {
+        let t = run_case(&l);
+        match abstract_client(&l, &t) {
+            Some((case, obs)) => {
+                let cfg = parse_ccfg(&l).unwrap();
+                out.count(&format!("tamper_{}", cfg.t));
+                if obs.contains("ok") && !obs.contains("err(") {
+                    out.count("open_ok");
+                }
+                if obs.contains("R") {
+                    out.nontrivial(&format!("{} / {}", case, cfg.t));
+                }
+                // distinct concrete cases may share an abstract case: they must then share the abstract behaviour
+                if seen.insert(format!("{} => {}", case, obs)) {
+                    out.case(&case, &obs);
+                }
+            }
+            None => out.count("outside_model"),
+        }
+        for v in direct_oracle(&l, &t) {
+            let class = v.split(':').next().unwrap_or("?").to_string();
+            out.violation(&class, &format!("{} | `{}` -> {}", v, l, t), &l);
+        }
+    }
+    out.finish(dir);
+}
